@@ -58,7 +58,7 @@ pub fn run(ctx: &Ctx, ev: &mut Ev) {
     if ctx.want("enc") {
         let mut alpha: Vec<u32> = if th { SCALARS.to_vec() } else { SCALARS_SMALL.to_vec() }; alpha.push(0xD800); alpha.push(0x10FFFF);
         let sp = EncSpace { encs: encoder_families(), alpha, maxlen: if tiny { 2 } else { 3 }, src16s: vec![false, true], vec_sinks: vec![false, true], repls: vec![false, true],
-            cap_offsets: vec![vec![0], vec![1], vec![0, 2]], last_seps: vec![false, true], stride: if tiny { 101 } else if th { 2 } else { 2 }, fills: vec![0x11] };
+            cap_offsets: vec![vec![0], vec![1], vec![0, 2]], last_seps: vec![false, true], stride: if tiny { 101 } else if th { 2 } else { 2 }, fills: vec![0x11], per_encoder: true };
         ev.note(format!("enc: {}", sp.describe()));
         enum_enc(ctx, ev, &sp, |case, _ng, ev| {
             let tr = ev.case();
